@@ -57,6 +57,7 @@ type loopInfo struct {
 	lc      *LoopContract
 	decName string
 	env     map[string]Val // names bound at header
+	nBack     int
 	frameOnly map[string]bool
 	hasFrame  bool
 }
